@@ -1,7 +1,7 @@
 """Direct tests of the generator-level properties on the REAL macro (in-process expansions):
 the search for a concrete failing input, and the kernel correspondence for C14 / C15 / C16."""
 import copy, re, collections, random, os, subprocess
-import k1, k1lib, gen
+import k1, k1lib, gen, vlib
 
 PARTNERS = {'Copy': ['Clone'], 'Clone': ['Copy'], 'Eq': ['PartialEq'], 'PartialEq': ['Eq'],
             'Ord': ['PartialOrd'], 'PartialOrd': ['Ord']}
@@ -196,7 +196,7 @@ def c16(seed, n, pool=None, processes=3):
     rel = None
     hdir = os.path.join(k1.ROOT, 'harness')
     env = dict(os.environ, CARGO_NET_OFFLINE='true')
-    p = subprocess.run(['cargo', 'build', '--offline', '--release'], cwd=hdir, env=env, stdin=subprocess.DEVNULL, capture_output=True, text=True, timeout=1500)
+    p = vlib.run_cargo(['cargo', 'build', '--offline', '--release'], cwd=hdir, env=env, timeout=1500)
     reldrv = os.path.join(hdir, 'target/release/k1driver')
     if p.returncode == 0 and os.path.exists(reldrv):
         rel = k1.run_real(src, driver=reldrv)
@@ -331,7 +331,7 @@ def cargo_check_subset(args):
     cmd = ['cargo', 'check', '--offline', '--manifest-path', '/repo/Cargo.toml', '--no-default-features', '--message-format=short']
     if feats:
         cmd += ['--features', ' '.join(feats)]
-    p = subprocess.run(cmd, env=env, stdin=subprocess.DEVNULL, capture_output=True, text=True, timeout=600)
+    p = vlib.run_cargo(cmd, env=env, timeout=600)
     return feats, p.returncode, p.stderr[-1500:]
 
 def c18_subsets(seed, n):
@@ -378,7 +378,7 @@ def c18(seed, n, inproc=None):
     for k, F in enumerate(sets):
         tdir = os.path.join(vlib.BUILD, 'c18harness')
         env = dict(os.environ, CARGO_NET_OFFLINE='true', CARGO_TARGET_DIR=tdir)
-        p = subprocess.run(['cargo', 'build', '--offline', '--no-default-features', '--features', ' '.join(F)], cwd=hdir, env=env, stdin=subprocess.DEVNULL, capture_output=True, text=True, timeout=900)
+        p = vlib.run_cargo(['cargo', 'build', '--offline', '--no-default-features', '--features', ' '.join(F)], cwd=hdir, env=env, timeout=900)
         if p.returncode != 0:
             fails.append(dict(key='c18:harness:' + '+'.join(F), what='the crate does not build (as a library, hook on) with features [%s]: %s' % (' '.join(F), p.stderr[-400:]), input=' '.join(F)))
             continue
